@@ -34,6 +34,29 @@ func (m *MutexState) Lock(site string) {
 	m.real.Lock()
 }
 
+// TryLock takes the lock if nobody holds it (a decision point either way).
+//
+//go:noinline
+func (m *MutexState) TryLock(site string) bool {
+	s := cur
+	if s == nil || s.running == nil {
+		if m.real.TryLock() {
+			m.outside = true
+			return true
+		}
+		return false
+	}
+	if s.poisoned {
+		runtime.Goexit()
+	}
+	s.point(op{kind: opYield, site: site})
+	if m.owner != nil || !m.real.TryLock() {
+		return false
+	}
+	m.owner = s.running
+	return true
+}
+
 //go:noinline
 func (m *MutexState) Unlock(site string) {
 	s := cur
